@@ -63,10 +63,11 @@ INVARIANTS = {
     'mean': ['NaNIffNone', 'MeanBounds', 'PlainWhenEqual', 'MissingWeightsIrrelevant', 'PartMaskRule'],
     'mean2': ['Mean2NaNIffNone', 'SecondCallIndependent'],
     'rescale': ['CommonScaleExists', 'ConnectedShares'],
+    'partials': ['PartialsAssoc', 'PartialsListOrder'],
 }
 PROPERTIES = {'mean2': ['WeightsFrame']}
 ACTIONS = {'compare': ['Parse', 'Misaligned', 'Measure'], 'pool': ['Pool'], 'mean': ['Mean'],
-           'mean2': ['MeanFirst', 'MeanSecond'], 'rescale': ['Rescale']}
+           'mean2': ['MeanFirst', 'MeanSecond'], 'rescale': ['Rescale'], 'partials': ['Embed']}
 
 
 def _set(xs):
@@ -75,13 +76,14 @@ def _set(xs):
 
 def cfg(mode, nc, length, *, veccat=None, rots=(0,), shapes='Sh11', methods=(), sigmas='NoSigmas',
         srcs=('free',), freemasks='MasksUpTo1', minkeep=2, wkinds=('none',), wcat='NoW', wecat='NoW',
-        factors=(1,), families=('prop',), emitmod=1, emitaligned=1, emit=True, spec=None):
+        factors=(1,), families=('prop',), expcat='NoExp', expids=(1,), allpcat='NoW', allpids=(0,), emitmod=1, emitaligned=1, emit=True, spec=None):
     veccat = veccat or f'VecCat{length}'
     lines = ['CONSTANTS', f'  Mode = "{mode}"', f'  NC = {nc}', f'  LEN = {length}', f'  VecCat <- {veccat}',
              f'  Rots = {_set(rots)}', f'  Shapes <- {shapes}', f'  Methods = {_set(methods)}',
              f'  Sigmas <- {sigmas}', f'  MaskSrcs = {_set(srcs)}', f'  FreeMasks <- {freemasks}',
              f'  MinKeep = {minkeep}', f'  WKinds = {_set(wkinds)}', f'  WCat <- {wcat}', f'  WECat <- {wecat}',
-             f'  Factors = {_set(factors)}', f'  Families = {_set(families)}', f'  EmitMod = {emitmod}',
+             f'  Factors = {_set(factors)}', f'  Families = {_set(families)}', f'  ExpCat <- {expcat}', f'  ExpIds = {_set(expids)}',
+             f'  AllPCat <- {allpcat}', f'  AllPIds = {_set(allpids)}', f'  EmitMod = {emitmod}',
              f'  EmitAligned = {emitaligned}']
     if spec:
         lines.append(f'SPECIFICATION {spec}')
@@ -100,7 +102,7 @@ def trace_cfg(nc):
     lines = ['CONSTANTS', '  Mode = "compare"', f'  NC = {nc}', f'  LEN = {length}', '  VecCat <- NoSeq',
              '  Rots <- Unused', '  Shapes <- Unused', '  Methods <- Unused', '  Sigmas <- NoSeq',
              '  MaskSrcs <- Unused', '  FreeMasks <- Unused', '  MinKeep = 2', '  WKinds <- Unused',
-             '  WCat <- NoSeq', '  WECat <- NoSeq', '  Factors <- Unused', '  Families <- Unused', '  EmitMod = 1',
+             '  WCat <- NoSeq', '  WECat <- NoSeq', '  Factors <- Unused', '  Families <- Unused', '  ExpCat <- NoSeq', '  ExpIds <- Unused', '  AllPCat <- NoSeq', '  AllPIds <- Unused', '  EmitMod = 1',
              '  EmitAligned = 1',
              'SPECIFICATION TSpec', 'INVARIANT ErrorIffDiffering', 'INVARIANT MaskedIsDeleted',
              'CHECK_DEADLOCK FALSE']
@@ -789,7 +791,7 @@ def rescale_postconditions(A, want, conn, case, variant, methods=None, threshold
 
 
 def check_resc(rec, variant, nc):
-    case = {'record': {k: rec[k] for k in ('fam', 'neg', 'anti', 'base', 'f', 'src', 'arg', 'a', 'ma', 'conn')}}
+    case = {'record': {k: rec[k] for k in ('fam', 'neg', 'anti', 'base', 'f', 'exp', 'src', 'arg', 'a', 'ma', 'conn')}}
     rec = dict(rec, t='resc')
     prop = rec['fam'] == 'prop'
     try:
@@ -797,13 +799,57 @@ def check_resc(rec, variant, nc):
     except MaskSourceMismatch as e:
         return 1, [(e.key, 'from_partials does not produce the mask of the specification',
                     {**case, 'detail': e.detail})], 0, True
+    # the unit every RDM is measured in (decimal exponent chosen by the specification): proportionality, and with
+    # it every post-condition, does not depend on it
+    if any(rec['exp']):
+        unit = np.array([10.0 ** e for e in rec['exp']])[:, None]
+        want = want * unit
+        A = RDMs(np.asarray(A.dissimilarities, dtype=float) * unit, dissimilarity_measure=A.dissimilarity_measure,
+                 descriptors=A.descriptors, rdm_descriptors=A.rdm_descriptors, pattern_descriptors=A.pattern_descriptors)
     # the common scale is demanded of mutually proportional families only; sign and NaN pattern of every family
     n, out = rescale_postconditions(A, want, rec['conn'] and prop, case, variant, methods=RESCALE_METHODS,
                                     threshold=RESCALE_THRESHOLD if prop else None, limit=20 if prop else 4)
     return n, out, 0, (bool(rec['conn']) and len(rec['a']) >= 2 and any(rec['ma'])) or (bool(rec['anti']) and n == 3)
 
 
-CHECKERS = {'cmp': check_cmp, 'pool': check_pool, 'mean': check_mean, 'mean2': check_mean2, 'resc': check_resc}
+PART_LABELS = {'str': lambda c: 'abcdefgh'[c - 1], 'int': lambda c: {1: 9, 2: 10, 3: 2, 4: 100}.get(c, 1000 + c)}
+
+
+def check_partials(rec, variant, nc):
+    """from_partials on token-valued partial RDMs that list their patterns in their own order, combined list explicit
+    (any order) or the union in order of first appearance: every value must sit at the pair it names"""
+    lab = PART_LABELS[('str', 'int')[variant % 2]]
+    case = {'record': {k: rec[k] for k in ('ords', 'allp', 'parts', 'lst')}, 'labels': ('str', 'int')[variant % 2]}
+    parts = []
+    for r, (o, v) in enumerate(zip(rec['ords'], rec['parts'])):
+        pd = [lab(c) for c in o]
+        parts.append(RDMs(np.array([v], dtype=float), dissimilarity_measure='tok', rdm_descriptors={'subj': [f's{r}']},
+                          pattern_descriptors={'conds': pd if variant % 4 < 2 else np.array(pd)}))
+    kw = {'all_patterns': [lab(c) for c in rec['allp']]} if rec['allp'] else {}
+    try:
+        ob = from_partials(parts, descriptor='conds', **kw)
+    except Exception as e:  # noqa: BLE001
+        return 1, [(f'mask/from_partials/raises/{type(e).__name__}', repr(e), case)], 0, True
+    out = []
+    got_list = list(np.asarray(ob.pattern_descriptors['conds']).tolist())
+    want_list = [lab(c) for c in rec['lst']]
+    if got_list != want_list:
+        out.append(('mask/from_partials/pattern-list', 'the combined pattern list is not the explicit list / the union in '
+                    'order of first appearance', {**case, 'got': got_list, 'expected': want_list}))
+    got = np.asarray(ob.dissimilarities, dtype=float)
+    want = masked(rec['vecs'], rec['miss'])
+    if got.shape != want.shape or not np.array_equal(np.isnan(got), np.isnan(want)):
+        out.append(('mask/from_partials/nan-pattern', 'entries are missing at other pairs than the pairs outside the '
+                    'pattern set of the partial RDM', {**case, 'got': got, 'expected': want}))
+    elif not np.array_equal(np.nan_to_num(got, nan=-1.0), np.nan_to_num(want, nan=-1.0)):
+        out.append(('mask/from_partials/values', 'a dissimilarity sits at another pattern pair than the one it belongs to '
+                    '(token 10*p+q names the pair)', {**case, 'got': got, 'expected': want}))
+    permuted = any(list(o) != sorted(o) for o in rec['ords']) or (rec['allp'] and rec['allp'] != sorted(rec['allp']))
+    return 1, out, 0, bool(permuted)
+
+
+CHECKERS = {'cmp': check_cmp, 'pool': check_pool, 'mean': check_mean, 'mean2': check_mean2, 'resc': check_resc,
+            'partials': check_partials}
 
 
 def replay_chunk(args):
@@ -828,7 +874,7 @@ def replay_chunk(args):
         n_nontriv += bool(nontriv)
         c = rec.get('cls', rec['t'])
         if rec['t'] == 'resc':
-            c = 'resc/' + rec['fam'] + ('/anti' if rec['anti'] else '') + ('/neg' if rec['neg'] else '') \
+            c = 'resc/' + rec['fam'] + ('/units' if any(rec['exp']) else '') + ('/anti' if rec['anti'] else '') + ('/neg' if rec['neg'] else '') \
                 + ('' if n == 3 else '/not-converged')
         classes[c] = classes.get(c, 0) + 1
         for key, what, case in out:
